@@ -120,11 +120,65 @@ struct Block {
     entry: Entry,
     /// bytes before the enumerated string: a header shape, or the pointer-target prefix
     prefix: Vec<u8>,
+    /// how to rebuild `prefix` in a replay: "none", "hdr:<shape index>", "pfx:<length>"
+    prefix_tag: String,
     /// None = all 256 octet values
     alphabet: Option<&'static [u8]>,
     len: usize,
     first: u64,
     count: u64,
+}
+
+fn prefix_tag(prefix: &[u8]) -> String {
+    if prefix.is_empty() {
+        return "none".into();
+    }
+    if let Some(i) = HEADER_SHAPES.iter().position(|h| h.bytes()[..] == *prefix) {
+        return format!("hdr:{i}");
+    }
+    format!("pfx:{}", prefix.len())
+}
+
+fn prefix_from_tag(tag: &str) -> Vec<u8> {
+    if let Some(i) = tag.strip_prefix("hdr:") {
+        return HEADER_SHAPES[i.parse::<usize>().unwrap_or(0) % HEADER_SHAPES.len()].bytes().to_vec();
+    }
+    if let Some(n) = tag.strip_prefix("pfx:") {
+        return families::pointer_target_prefix(n.parse().unwrap_or(12));
+    }
+    vec![]
+}
+
+impl Block {
+    /// self-describing text used as the watchdog's case descriptor (a hang has no other witness)
+    fn desc(&self) -> String {
+        format!(
+            "block|{}|{}|{}|{}|{}|{}|{}",
+            self.fam,
+            self.entry.label(),
+            self.prefix_tag,
+            if self.alphabet.is_some() { "S" } else { "all" },
+            self.len,
+            self.first,
+            self.count
+        )
+    }
+    fn parse(desc: &str) -> Option<Block> {
+        let f: Vec<&str> = desc.split('|').collect();
+        if f.len() != 8 || f[0] != "block" {
+            return None;
+        }
+        Some(Block {
+            fam: if f[1] == "f1" { "f1" } else { "f2" },
+            entry: Entry::parse(f[2])?,
+            prefix: prefix_from_tag(f[3]),
+            prefix_tag: f[3].to_string(),
+            alphabet: if f[4] == "S" { Some(&S) } else { None },
+            len: f[5].parse().ok()?,
+            first: f[6].parse().ok()?,
+            count: f[7].parse().ok()?,
+        })
+    }
 }
 
 fn blocks_for(fam: &'static str, entry: Entry, prefix: &[u8], alphabet: Option<&'static [u8]>, max_len: usize, out: &mut Vec<Block>) {
@@ -135,13 +189,14 @@ fn blocks_for(fam: &'static str, entry: Entry, prefix: &[u8], alphabet: Option<&
         let mut first = 0;
         while first < total {
             let count = per_block.min(total - first);
-            out.push(Block { fam, entry, prefix: prefix.to_vec(), alphabet, len, first, count });
+            out.push(Block { fam, entry, prefix: prefix.to_vec(), prefix_tag: prefix_tag(prefix), alphabet, len, first, count });
             first += count;
         }
     }
 }
 
-fn run_block(b: &Block, l: &mut Local) {
+fn run_block(ctx: &Ctx, b: &Block, l: &mut Local) {
+    ctx.watch(l.worker, || b.desc());
     let mut buf = b.prefix.clone();
     let plen = buf.len();
     let mut t = Tally::default();
@@ -247,15 +302,66 @@ fn run_edit_item(it: &EditItem, l: &mut Local) {
         }
         Err(_) => {}
     }
+    let mut disagree = (0u64, 0u64);
     let n = families::edits(&it.seed, it.pairs, |s| {
         buf.truncate(plen);
         buf.extend_from_slice(s);
+        let before = t.ok;
         judge(e, &buf, Some(&work_key), true, &mut t, l, &|| byte_case(e, &buf));
+        // observation only (the statement does not demand agreement): server-side request
+        // decoding vs. Message::from_vec on inputs with QDCOUNT = 1
+        if e == Entry::Request && buf.len() >= 12 && buf[4] == 0 && buf[5] == 1 {
+            let req_ok = t.ok > before;
+            if let Ok(o) = catch(|| decode(Entry::Message, &buf)) {
+                if o.ok && !req_ok {
+                    disagree.0 += 1;
+                } else if !o.ok && req_ok {
+                    disagree.1 += 1;
+                }
+            }
+        }
     });
+    if disagree.0 > 0 {
+        *l.outcomes.entry("obs:qd1-message-accepts-request-rejects".into()).or_insert(0) += disagree.0;
+    }
+    if disagree.1 > 0 {
+        *l.outcomes.entry("obs:qd1-request-accepts-message-rejects".into()).or_insert(0) += disagree.1;
+    }
     if l.samples.len() < 2 {
         l.sample(json!({"family": "f3", "seed": it.tag, "entry": e.label(), "seed_len": it.seed.len(), "edits": n}));
     }
     t.flush("f3", e.class(), l);
+}
+
+fn build_edit_items(thorough: bool, entries: &[c01::alphabet::Entry], msg_seeds: &[seeds::Seed]) -> Vec<EditItem> {
+    let mut items: Vec<EditItem> = vec![];
+    for s in msg_seeds {
+        for e in [Entry::Message, Entry::Request, Entry::Response, Entry::TsigTbs] {
+            items.push(EditItem { tag: s.tag.clone(), entry: e, prefix: vec![], seed: s.bytes.clone(), pairs: false });
+        }
+    }
+    let pfx12 = families::pointer_target_prefix(12);
+    for (tag, t, w) in seeds::rdata_seeds(entries) {
+        items.push(EditItem { tag: tag.clone(), entry: Entry::Rdata { rtype: t, off: 0 }, prefix: vec![], seed: w.clone(), pairs: thorough });
+        items.push(EditItem { tag, entry: Entry::Rdata { rtype: t, off: 12 }, prefix: pfx12.clone(), seed: w, pairs: false });
+    }
+    for (tag, w) in seeds::record_seeds(entries) {
+        items.push(EditItem { tag: tag.clone(), entry: Entry::Record { off: 0 }, prefix: vec![], seed: w.clone(), pairs: false });
+        items.push(EditItem { tag, entry: Entry::Record { off: 12 }, prefix: pfx12.clone(), seed: w, pairs: false });
+    }
+    for (tag, w) in seeds::name_seeds() {
+        items.push(EditItem { tag: tag.clone(), entry: Entry::Name { off: 0 }, prefix: vec![], seed: w.clone(), pairs: thorough && w.len() < 100 });
+        items.push(EditItem { tag, entry: Entry::Name { off: 12 }, prefix: pfx12.clone(), seed: w, pairs: false });
+    }
+    if thorough {
+        // pairs of S-substitutions on every message seed of at most 160 octets
+        for s in msg_seeds {
+            if s.bytes.len() <= 160 {
+                items.push(EditItem { tag: format!("pairs:{}", s.tag), entry: Entry::Message, prefix: vec![], seed: s.bytes.clone(), pairs: true });
+            }
+        }
+    }
+    items
 }
 
 // ------------------------------------------------------------------------------------------
@@ -299,7 +405,36 @@ fn run_growth(family: &str, qd1: bool, entry: Entry, l: &mut Local) -> Vec<(u32,
 // ------------------------------------------------------------------------------------------
 
 fn replay(ctx: &Ctx, case: &Value) {
-    ctx.with_local(|l| {
+    // run under par_run so that the hang watchdog is active during the replay, too
+    ctx.par_run(1, 1, |_, l| {
+        // watchdog witnesses carry the descriptor of the unit that was running
+        if let Some(desc) = case["case"].as_str() {
+            let f: Vec<&str> = desc.split('|').collect();
+            match f[0] {
+                "block" => {
+                    ctx.case_timeout_s.store(30, std::sync::atomic::Ordering::Relaxed);
+                    if let Some(b) = Block::parse(desc) {
+                        run_block(ctx, &b, l);
+                    }
+                }
+                "edit" if f.len() == 3 => {
+                    let thorough = f[1] == "true";
+                    let entries = rdata_alphabet(thorough);
+                    let recs = record_alphabet(&entries, 0);
+                    let msg_seeds = seeds::message_seeds(&entries, &recs, thorough);
+                    let items = build_edit_items(thorough, &entries, &msg_seeds);
+                    if let Some(it) = f[2].parse::<usize>().ok().and_then(|i| items.get(i)) {
+                        run_edit_item(it, l);
+                    }
+                }
+                "growth" if f.len() == 4 => {
+                    let fam: &str = families::GROWTH_FAMILIES.iter().find(|x| **x == f[1]).copied().unwrap_or("pointer-chain");
+                    run_growth(fam, f[2] == "true", Entry::parse(f[3]).unwrap_or(Entry::Message), l);
+                }
+                _ => {}
+            }
+            return;
+        }
         let entry = Entry::parse(case["entry"].as_str().unwrap_or("message")).unwrap_or(Entry::Message);
         if let Some(fam) = case["family"].as_str() {
             let fam: &str = families::GROWTH_FAMILIES.iter().find(|f| **f == fam).copied().unwrap_or("pointer-chain");
@@ -316,9 +451,7 @@ fn replay(ctx: &Ctx, case: &Value) {
 fn main() {
     let ctx = Ctx::from_args("C01", "exploration");
     let thorough = !ctx.quick();
-    // the machine may be shared: a case is only called a hang after two minutes (the heaviest
-    // single item, a pairs-of-substitutions neighbourhood, needs a few CPU seconds)
-    ctx.case_timeout_s.store(120, std::sync::atomic::Ordering::Relaxed);
+    ctx.case_timeout_s.store(300, std::sync::atomic::Ordering::Relaxed);
 
     if let Some((_key, case)) = ctx.replay_case() {
         replay(&ctx, &case);
@@ -341,7 +474,7 @@ fn main() {
          strings are distinct by construction and counted in outcome_classes['f*:nontrivial-by-construction'].",
     );
     ctx.assume("the tick hook (hickory_proto::verif) counts every Name::read state-machine step and every BinDecoder::{pop,read_slice}; work outside those primitives (allocation, copying of already-read slices) is not counted");
-    ctx.assume("wall-clock time is not judged, only the deterministic work counter; a >30 s case is reported by the watchdog as hang");
+    ctx.assume("wall-clock time is not judged, only the deterministic work counter; a unit of work (65,536 f1/f2 strings: 30 s; one f3/f4 item: 300 s) that does not finish is reported by the watchdog as hang");
     ctx.set(
         "work_bound",
         json!({"c1": C1, "c0": C0, "derivation": "max 127 labels x 4 ticks + 128 hops x 3 ticks + 3 = 895 ticks per name, densest reference = 6-octet question => 149.2 ticks/octet for the worst linear decoder; C1=256 is 1.7x that. Honest seeds: see honest_max_ticks_per_octet"}),
@@ -375,39 +508,18 @@ fn main() {
     ctx.set("f1_f2_strings", json!(blocks.iter().map(|b| b.count).sum::<u64>()));
     // f1/f2 chunks take milliseconds: call 30 s a hang there
     ctx.case_timeout_s.store(30, std::sync::atomic::Ordering::Relaxed);
-    ctx.par_run(blocks.len() as u64, 4, |i, l| run_block(&blocks[i as usize], l));
-    ctx.case_timeout_s.store(120, std::sync::atomic::Ordering::Relaxed);
+    ctx.par_run(blocks.len() as u64, 1, |i, l| run_block(&ctx, &blocks[i as usize], l));
+    // f3/f4 items need up to a few CPU seconds each (pairs of substitutions, 64 KiB growth sweeps)
+    // and the machine may be shared: five minutes before a case is called a hang
+    ctx.case_timeout_s.store(300, std::sync::atomic::Ordering::Relaxed);
 
     // family 3
-    let mut items: Vec<EditItem> = vec![];
-    for s in &msg_seeds {
-        for e in [Entry::Message, Entry::Request, Entry::Response, Entry::TsigTbs] {
-            items.push(EditItem { tag: s.tag.clone(), entry: e, prefix: vec![], seed: s.bytes.clone(), pairs: false });
-        }
-    }
-    let pfx12 = families::pointer_target_prefix(12);
-    for (tag, t, w) in seeds::rdata_seeds(&entries) {
-        items.push(EditItem { tag: tag.clone(), entry: Entry::Rdata { rtype: t, off: 0 }, prefix: vec![], seed: w.clone(), pairs: thorough });
-        items.push(EditItem { tag, entry: Entry::Rdata { rtype: t, off: 12 }, prefix: pfx12.clone(), seed: w, pairs: false });
-    }
-    for (tag, w) in seeds::record_seeds(&entries) {
-        items.push(EditItem { tag: tag.clone(), entry: Entry::Record { off: 0 }, prefix: vec![], seed: w.clone(), pairs: false });
-        items.push(EditItem { tag, entry: Entry::Record { off: 12 }, prefix: pfx12.clone(), seed: w, pairs: false });
-    }
-    for (tag, w) in seeds::name_seeds() {
-        items.push(EditItem { tag: tag.clone(), entry: Entry::Name { off: 0 }, prefix: vec![], seed: w.clone(), pairs: thorough && w.len() < 100 });
-        items.push(EditItem { tag, entry: Entry::Name { off: 12 }, prefix: pfx12.clone(), seed: w, pairs: false });
-    }
-    if thorough {
-        // pairs of S-substitutions on every message seed of at most 160 octets
-        for s in &msg_seeds {
-            if s.bytes.len() <= 160 {
-                items.push(EditItem { tag: format!("pairs:{}", s.tag), entry: Entry::Message, prefix: vec![], seed: s.bytes.clone(), pairs: true });
-            }
-        }
-    }
+    let items = build_edit_items(thorough, &entries, &msg_seeds);
     ctx.set("f3_seeds", json!({"messages": msg_seeds.len(), "items": items.len()}));
-    ctx.par_run(items.len() as u64, 1, |i, l| run_edit_item(&items[i as usize], l));
+    ctx.par_run(items.len() as u64, 1, |i, l| {
+        ctx.watch(l.worker, || format!("edit|{}|{}", thorough, i));
+        run_edit_item(&items[i as usize], l)
+    });
 
     // family 4
     let mut gitems: Vec<(&'static str, bool, Entry)> = vec![];
@@ -424,6 +536,7 @@ fn main() {
     let curves: Mutex<Vec<Value>> = Mutex::new(vec![]);
     ctx.par_run(gitems.len() as u64, 1, |i, l| {
         let (f, qd1, e) = gitems[i as usize];
+        ctx.watch(l.worker, || format!("growth|{}|{}|{}", f, qd1, e.label()));
         let pts = run_growth(f, qd1, e, l);
         if e == Entry::Message || (e == Entry::Request && qd1) {
             let pick: Vec<Value> = pts
